@@ -450,7 +450,7 @@ func (la *lockAnalysis) flow(fn *ssa.Function) *LockFlow {
 
 func paramIndex(fn *ssa.Function, key string) int {
 	for i, p := range fn.Params {
-		if p.Name() == key {
+		if paramCanon(p) == key {
 			return i
 		}
 	}
